@@ -258,3 +258,45 @@ _yaml_contract("1-given", [_entry("given", 0)])
 _yaml_contract("2-given-then-absent", [_entry("given", 1), _entry("absent", 0)])
 _yaml_contract("2-none-then-given", [_entry("none", 2), _entry("given", 1)])
 _yaml_contract("3-mixed", [_entry("given", 1), _entry("absent", 0), _entry("none", 1)])
+
+
+# ------------------------------------------------------------------ bounded companion (never counted as proved)
+from pyvc.api import table          # noqa: E402
+
+
+@table("small-configurations", prop="C19")
+def small_configurations():
+    """the clauses of the per-key contracts evaluated natively on the real converter: a valid base dictionary with
+    ONE key at a time set to each of a list of valid and invalid candidate values, in the dictionary's own key order
+    and in reversed key order"""
+    from pyvc.conform import conform
+    base = {"MODE": "CLIENT", "TRANSPORT_TYPE": "TCP",
+            "APPLICATIONS": [{"vendor_id": b"\x00\x00\x28\xaf", "app_id": b"\x01\x00\x00\x30"}],
+            "LOCAL_NODE_HOSTNAME": "a.example", "LOCAL_NODE_REALM": "example", "LOCAL_NODE_IP_ADDRESS": "10.0.0.1",
+            "LOCAL_NODE_PORT": 3868, "PEER_NODE_HOSTNAME": "b.example", "PEER_NODE_REALM": "example",
+            "PEER_NODE_IP_ADDRESS": "10.0.0.2", "PEER_NODE_PORT": 3869, "WATCHDOG_TIMEOUT": 30}
+    cand = {
+        "MODE": ["CLIENT", "SERVER", "client", "", "PEER"],
+        "TRANSPORT_TYPE": ["TCP", "SCTP", "tcp", "UDP", "X"],
+        "APPLICATIONS": [[], [{"vendor_id": b"\x00\x00\x00\x00", "app_id": b"\x00\x00\x00\x01"}],
+                         [{"vendor_id": b"\x00\x00\x00\x00", "app_id": 1}], [{"other": b"\x00\x00\x00\x01"}]],
+        "LOCAL_NODE_HOSTNAME": ["x", ""], "LOCAL_NODE_REALM": ["r"],
+        "LOCAL_NODE_IP_ADDRESS": ["127.0.0.1", "256.1.1.1", "::1", "host", "1.2.3"],
+        "LOCAL_NODE_PORT": [1, 65535], "PEER_NODE_HOSTNAME": ["y"], "PEER_NODE_REALM": ["s"],
+        "PEER_NODE_IP_ADDRESS": ["192.168.0.1", "192.168.0.256", ""],
+        "PEER_NODE_PORT": [1, 3868], "WATCHDOG_TIMEOUT": [1, 60, 0],
+    }
+    out = []
+    for key in KEYS:
+        def inputs(key=key):
+            for v in cand[key]:
+                d = dict(base)
+                d[key] = v
+                yield {"config": d}
+                yield {"config": dict(reversed(list(d.items())))}
+        chk, skip, fails = conform("C19/_internal_utils._convert_config_to_connection_obj[key:%s]" % key, inputs())
+        out.append(("key-" + key, not fails and chk > 0, {"checked": chk, "failing": fails}))
+    return out
+
+
+small_configurations.bounded = "one key at a time over 2-5 candidate values, two key orders; native evaluation of the contract clauses"
